@@ -241,6 +241,11 @@ def r1(idx, rep):
 
 def r4(idx, rep):
     c10.r4(idx, _Proxy(rep, "R4"))
+    r4_deref(idx, rep)
+
+
+def r4_deref(idx, rep):
+    c10.r2(idx, K.as_rule(rep, "R4", keep=lambda k: "_deref_paths_name" in k))
 
 
 def r5(idx, rep):
